@@ -198,6 +198,7 @@ pub struct ClientObs {
     pub t_sent: u64,
     pub t_end: u64,
     pub body_head: Vec<u8>,
+    pub bad_bytes: Vec<u8>,
 }
 
 #[derive(Clone, Debug, Default)]
@@ -216,7 +217,7 @@ pub fn h1_client_obs(oc: &ClientOutcome, ri: usize, id: u64) -> ClientObs {
         None => ClientObs { t_sent, ..Default::default() },
         Some(m) => ClientObs {
             answered: true, status: Some(m.status()), sim_id: m.sim_id, body_len: m.body_len, body_ok: m.body_ok(), first_bad: m.check.first_bad, complete: m.complete,
-            aborted: if m.complete { None } else { Some("connection ended mid-message".into()) }, t_sent, t_end: m.t_end, body_head: m.body_head.clone(),
+            aborted: if m.complete { None } else { Some("connection ended mid-message".into()) }, t_sent, t_end: m.t_end, body_head: m.body_head.clone(), bad_bytes: m.check.bad_bytes.clone(),
         },
     }
 }
@@ -227,7 +228,7 @@ pub fn h2_client_obs(rec: &H2ConnRecord, id: u64) -> ClientObs {
         Some(s) => ClientObs {
             answered: s.status.is_some(), status: s.status, sim_id: s.sim_id, body_len: s.body_len, body_ok: s.body_ok(), first_bad: s.check.first_bad, complete: s.recv_end,
             aborted: s.recv_rst.map(|c| format!("RST_STREAM({c})")).or(if s.refused_by_goaway { Some("refused by GOAWAY".into()) } else { None }),
-            t_sent: s.t_sent_end, t_end: s.t_end, body_head: s.body_head.clone(),
+            t_sent: s.t_sent_end, t_end: s.t_end, body_head: s.body_head.clone(), bad_bytes: s.check.bad_bytes.clone(),
         },
     }
 }
